@@ -84,10 +84,7 @@ var c15Bounds = []int{8, 16, 32, 64, 100, 128, 250, 256, 500, 512, 1000, 1024}
 
 // the copy-on-write cache makes n first-time uses cost n*n/2 map insertions: the two largest sizes only in the thorough tier
 func c15BoundsFor() []int {
-	if deep() {
-		return c15Bounds
-	}
-	return c15Bounds[:len(c15Bounds)-2]
+	return c15Bounds // (the two largest sizes were thorough-only while the controller still spun on a core)
 }
 
 // genC15Rotation: one caller cycling over w distinct patterns for a few laps, w just around a plausible cache bound:
